@@ -30,13 +30,17 @@ For each class there is a small model of the discipline that makes it harmless a
                      same state of these
 * `guardRef`         the reference a guard holds to the flag it restores
 
+* `reloader`         (minijinja-autoreload only) the `AutoReloader`'s cached environment and notifier
+                     behind their mutexes: a layer ABOVE `Environment` with a property of its own (C20,
+                     `MJ/Model/Reloader.lean`); an environment it hands out is an ordinary environment
+
 No Mathlib import.
 -/
 namespace MJ.Hidden
 
 inductive StateClass where
   | onceCache | memoCache | idGenerator | guard | guardRef | freshKeyRegistry | pool | copyOnWrite
-  | immutable | renderLocal | valueState
+  | immutable | renderLocal | valueState | reloader
   deriving Repr, DecidableEq
 
 /-- every row of the regenerated table `MJ.Gen.c15HiddenState` with its class -/
@@ -212,5 +216,73 @@ def modelHandleRegistry : List (String × Bool) :=
     fact is recorded but not demanded. -/
 def handleRegistrySafe (rows : List (String × Bool)) : Bool :=
   rows.lookup "insert-single-only-when-empty" == some true
+
+/-- the same for minijinja-contrib and minijinja-autoreload (`MJ.Gen.c15HiddenStateExt`): `cycler()` and
+    `joiner()` return objects with a position / a used flag — values created by the render that calls
+    them; the reloader's mutexes -/
+def modelHiddenStateExt : List (String × StateClass) :=
+  [("contrib:globals.rs|created-in|call_method|atomic", .valueState),
+   ("contrib:globals.rs|created-in|call|atomic", .valueState),
+   ("contrib:globals.rs|field|Cycler.pos|atomic", .valueState),
+   ("contrib:globals.rs|field|Joiner.used|atomic", .valueState),
+   ("autoreload:lib.rs|created-in|with_fs_watcher|mutex", .reloader),
+   ("autoreload:lib.rs|field|AutoReloader.cached_env|mutex", .reloader),
+   ("autoreload:lib.rs|field|NotifierImpl.fs_watcher|mutex", .reloader),
+   ("autoreload:lib.rs|field|NotifierImplHandle.Strong|mutex", .reloader),
+   ("autoreload:lib.rs|field|NotifierImplHandle.Weak|mutex", .reloader)]
+
+/-! ## what a compile can depend on (`MJ.Gen.c15CompileReads`) -/
+
+def modelCompileReads : List (String × List String) :=
+  [("signature:new", ["name:&'sourcestr", "source:&'sourcestr", "config:&TemplateConfig"]),
+   ("signature:_new_impl", ["name:&'sourcestr", "source:&'sourcestr", "config:&TemplateConfig"]),
+   ("config-fields-read", ["default_auto_escape", "syntax_config", "ws_config"]),
+   ("other-receivers", []),
+   ("call:loader.rs", ["name,source,&self.template_config", "name,source,&self.template_config"]),
+   ("call:environment.rs", ["name,source,&self.templates.template_config"]),
+   ("compiler-imports", ["compiler", "error", "output", "syntax", "utils", "value"]),
+   ("environment-mentions", []),
+   ("hidden-state", ["compiler/codegen.rs|thread_local|PENDING_BLOCK_POOL|refcell",
+                     "compiler/codegen.rs|thread_local|SPAN_STACK_POOL|refcell",
+                     "compiler/instructions.rs|static|EMPTY_INSTRUCTIONS|plain",
+                     "syntax.rs|cow|delims|arc",
+                     "syntax.rs|static|DEFAULT_DELIMS_ARC|once|filled-at-1-site",
+                     "template.rs|created-in|render_captured_to|refcell"])]
+
+/-- crate modules through which a compile could reach the environment, the VM or the registries -/
+def forbiddenForCompiler : List String :=
+  ["environment", "vm", "loader", "template", "defaults", "filters", "tests", "functions", "expression"]
+
+/-- the classes of hidden state a compile may touch: each is constant (`immutable`, `onceCache`,
+    `copyOnWrite` on the builder's own copy), cleared before use (`pool`), or belongs to renders -/
+def compileSafeClasses : List StateClass := [.pool, .immutable, .onceCache, .copyOnWrite, .renderLocal]
+
+/-- `compile_depends_only_on`, as far as it can be read off the source: `CompiledTemplate::new` takes
+    name, source and the `TemplateConfig` and nothing else; every call site hands it the store's
+    CURRENT `template_config`; `_new_impl` reads exactly the fields of `TemplateConfig` (`tc`) through
+    `config.` and nothing through `self.`/`env.`/`state.`; the compiler modules import no module through
+    which the environment, the VM, the loader or the registries could be reached and do not mention
+    them; and every piece of hidden state in the compiler modules has a class that cannot carry
+    anything from one compile into the next (`classes`: the classified list). -/
+def compileReadsSafe (rows : List (String × List String)) (tc : List String)
+    (classes : List (String × StateClass)) : Bool :=
+  rows.lookup "signature:new" == some ["name:&'sourcestr", "source:&'sourcestr", "config:&TemplateConfig"] &&
+  rows.lookup "signature:_new_impl" == some ["name:&'sourcestr", "source:&'sourcestr", "config:&TemplateConfig"] &&
+  (rows.filter (fun r => r.1 == "call:loader.rs" || r.1 == "call:environment.rs" || r.1 == "call:template.rs" ||
+                         r.1 == "call:expression.rs" || r.1 == "call:vm/mod.rs" || r.1 == "call:vm/state.rs")).all
+    (fun r => r.2.all (fun a => a == "name,source,&self.template_config" || a == "name,source,&self.templates.template_config")) &&
+  (match rows.lookup "config-fields-read" with
+   | some fs => fs.all (tc.contains ·) && tc.all (fs.contains ·)
+   | none => false) &&
+  rows.lookup "other-receivers" == some [] &&
+  rows.lookup "environment-mentions" == some [] &&
+  (match rows.lookup "compiler-imports" with
+   | some ims => ims.all (fun m => !forbiddenForCompiler.contains m)
+   | none => false) &&
+  (match rows.lookup "hidden-state" with
+   | some hs => hs.all (fun h => match classes.lookup h with
+                                 | some cls => compileSafeClasses.contains cls
+                                 | none => false)
+   | none => false)
 
 end MJ.Hidden
